@@ -264,6 +264,11 @@ int main(int argc, char **argv)
 		n_enum += c;
 	if (!exact_only)
 		build_family();
+	if (nv_arg(argc, argv, "pat", NULL)) {		/* replay of one named pattern */
+		one_pattern(nv_arg(argc, argv, "pat", ""));
+		alarm(0);
+		return nv_finish();
+	}
 	total = n_enum + n_family;
 	my_cases = (total - nv_shard + nv_nshards - 1) / nv_nshards;
 	snprintf(errpath, sizeof(errpath), "%s.err", nv_arg(argc, argv, "out", "c11"));
